@@ -286,3 +286,235 @@ def gen_frame(rng, max_cells=3, loads=True, allow_mz_dist=True):
                                              nodal_only=pinned and rng.random() < 0.5)
     s.meta = {"kind": "frame/%dx%d" % (nx, ny)}
     return s
+
+
+# ---------------------------------------------------------------- solvable structures
+
+def _rat_dir(rng, allow_axis=True):
+    """direction with rational length: (dx, dy, L) for a unit 'scale'"""
+    if allow_axis and rng.random() < 0.35:
+        dx, dy = rng.choice([(1, 0), (0, 1), (-1, 0), (0, -1)])
+        return Fr(dx), Fr(dy), Fr(1)
+    a, b, c = rng.choice(PYTH)
+    if rng.random() < 0.5:
+        a, b = b, a
+    return Fr(a * rng.choice([1, -1])), Fr(b * rng.choice([1, -1])), Fr(c)
+
+
+def _len_for(rng, unit):
+    """a bar length that is a decimal multiple of the direction's integer length"""
+    target = Fr(rng.choice(["50", "100", "120", "250", "37.5", "400", "65", "200"]))
+    m = max(1, round(target / unit))
+    return Fr(m) if rng.random() < 0.7 else Fr(m) + Fr(rng.choice(["0.5", "0.25", "0.1"]))
+
+
+def _loads(rng, s, bid, pinned, nmax=3, tricky=True):
+    if pinned and rng.random() < 0.5:
+        s.loads += gen_loads_for_bar(rng, bid, nmax=2, nodal_only=True)
+    else:
+        s.loads += gen_loads_for_bar(rng, bid, nmax=nmax, allow_mz_dist=False)
+
+
+SUPPORTS = [(True, True, True), (True, True, False), (False, True, False), (True, False, False),
+            (True, False, True), (False, True, True), (False, False, True)]
+
+
+def gen_beam(rng):
+    """one bar, any rational direction, a statically sound support pair"""
+    s = Structure()
+    std_mat_sec(s, rng)
+    dx, dy, unit = _rat_dir(rng)
+    L = _len_for(rng, unit)
+    x1, y1 = Fr(rng.randint(-30, 30)) * 10, Fr(rng.randint(-30, 30)) * 10
+    kind = rng.choice(["cantilever", "cantilever", "fixed-fixed", "fixed-pin", "pin-roller", "fixed-slide"])
+    if kind == "cantilever":
+        c1, c2 = (True, True, True), (False, False, False)
+    elif kind == "fixed-fixed":
+        c1, c2 = (True, True, True), (True, True, True)
+    elif kind == "fixed-pin":
+        c1, c2 = (True, True, True), (True, True, False)
+    elif kind == "pin-roller":
+        # the roller must not be parallel to the bar
+        c1 = (True, True, False)
+        c2 = (False, True, False) if dx != 0 else (True, False, False)
+    else:
+        c1 = (True, True, True)
+        c2 = (False, True, True) if dx != 0 else (True, False, True)
+    if rng.random() < 0.5 and kind != "pin-roller":
+        c1, c2 = c2, c1
+    s.nodes["n1"] = (x1, y1, c1)
+    s.nodes["n2"] = (x1 + dx * L, y1 + dy * L, c2)
+    s.bars.append({"id": "b1", "n1": "n1", "l1": LINKS["rigid"], "n2": "n2", "l2": LINKS["rigid"],
+                   "mat": rng.choice(list(s.mats)), "sec": rng.choice(list(s.secs))})
+    s.loads = gen_loads_for_bar(rng, "b1", nmax=4, allow_mz_dist=False)
+    s.meta = {"kind": "beam/" + kind}
+    return s
+
+
+def gen_chain(rng):
+    """2-4 bars in a polyline with free joints between them; first node clamped, others free or
+    on rollers; some joints pinned on one side"""
+    s = Structure()
+    std_mat_sec(s, rng)
+    n = rng.randint(2, 4)
+    x, y = Fr(rng.randint(-20, 20)) * 10, Fr(rng.randint(-20, 20)) * 10
+    s.nodes["n0"] = (x, y, (True, True, True))
+    for k in range(n):
+        dx, dy, unit = _rat_dir(rng)
+        L = _len_for(rng, unit)
+        x, y = x + dx * L, y + dy * L
+        last = k == n - 1
+        sup = (False, False, False)
+        if last and rng.random() < 0.6:
+            sup = rng.choice([(True, True, True), (True, True, False), (False, True, False) if dx != 0 else (True, False, False)])
+        elif rng.random() < 0.2:
+            sup = (False, True, False) if dx != 0 else (True, False, False)
+        s.nodes["n%d" % (k + 1)] = (x, y, sup)
+        l1 = LINKS["rigid"]
+        l2 = LINKS["pin"] if (not last and rng.random() < 0.25) else LINKS["rigid"]
+        s.bars.append({"id": "b%d" % (k + 1), "n1": "n%d" % k, "l1": l1, "n2": "n%d" % (k + 1), "l2": l2,
+                       "mat": rng.choice(list(s.mats)), "sec": rng.choice(list(s.secs))})
+        if rng.random() < 0.3:
+            b = s.bars[-1]
+            b["n1"], b["n2"], b["l1"], b["l2"] = b["n2"], b["n1"], b["l2"], b["l1"]
+        if rng.random() < 0.7:
+            s.loads += gen_loads_for_bar(rng, "b%d" % (k + 1), nmax=3, allow_mz_dist=False)
+    if not s.loads:
+        s.loads += gen_loads_for_bar(rng, "b1", nmax=3, allow_mz_dist=False)
+    s.meta = {"kind": "chain/%d" % n}
+    return s
+
+
+def gen_portal(rng):
+    """two columns and a beam (or an A-frame on a 3-4-5 grid), clamped or pinned feet, the beam
+    hung rigidly or with a pinned end, loads on every bar incl. on the supported nodes"""
+    s = Structure()
+    std_mat_sec(s, rng)
+    a = Fr(rng.choice(["10", "25", "50"]))
+    ox, oy = Fr(rng.randint(-10, 10)) * 10, Fr(rng.randint(-10, 10)) * 10
+    shape = rng.choice(["portal", "portal", "aframe", "braced"])
+    foot = lambda: rng.choice([(True, True, True), (True, True, True), (True, True, False)])
+    if shape == "aframe":
+        pts = {"n1": (0, 0), "n2": (3, 4), "n3": (6, 0)}
+        edges = [("n1", "n2"), ("n2", "n3")]
+        sups = {"n1": foot(), "n3": foot()}
+    elif shape == "braced":
+        pts = {"n1": (0, 0), "n2": (0, 4), "n3": (3, 4), "n4": (3, 0)}
+        edges = [("n1", "n2"), ("n2", "n3"), ("n4", "n3"), ("n1", "n3")]
+        sups = {"n1": foot(), "n4": foot()}
+    else:
+        w = rng.choice([3, 6])
+        pts = {"n1": (0, 0), "n2": (0, 4), "n3": (w, 4), "n4": (w, 0)}
+        edges = [("n1", "n2"), ("n2", "n3"), ("n3", "n4")]
+        sups = {"n1": foot(), "n4": foot()}
+    for k, (px, py) in pts.items():
+        s.nodes[k] = (ox + a * px, oy + a * py, sups.get(k, (False, False, False)))
+    for i, (p, q) in enumerate(edges):
+        if rng.random() < 0.3:
+            p, q = q, p
+        l1, l2 = LINKS["rigid"], LINKS["rigid"]
+        if shape == "braced" and {p, q} == {"n1", "n3"}:
+            l1, l2 = LINKS["pin"], LINKS["pin"]
+        elif rng.random() < 0.15:
+            l2 = LINKS["pin"]
+        s.bars.append({"id": "b%d" % (i + 1), "n1": p, "l1": l1, "n2": q, "l2": l2,
+                       "mat": rng.choice(list(s.mats)), "sec": rng.choice(list(s.secs))})
+        pinned = (not l1[2]) and (not l2[2])
+        if rng.random() < 0.75:
+            if pinned:
+                s.loads += gen_loads_for_bar(rng, "b%d" % (i + 1), nmax=2, nodal_only=True)
+            else:
+                s.loads += gen_loads_for_bar(rng, "b%d" % (i + 1), nmax=3, allow_mz_dist=False)
+    if not s.loads:
+        s.loads += gen_loads_for_bar(rng, "b2", nmax=3, allow_mz_dist=False)
+    s.meta = {"kind": "portal/" + shape}
+    return s
+
+
+def gen_truss(rng):
+    """pin-jointed triangle(s) on the 3-4-5 grid with nodal loads (axial members, joints that
+    carry no rotational stiffness)"""
+    s = Structure()
+    std_mat_sec(s, rng)
+    a = Fr(rng.choice(["10", "25"]))
+    pts = {"n1": (0, 0), "n2": (6, 0), "n3": (3, 4)}
+    edges = [("n1", "n2"), ("n1", "n3"), ("n2", "n3")]
+    if rng.random() < 0.5:
+        pts["n4"] = (9, 4)
+        edges += [("n3", "n4"), ("n2", "n4")]
+    sups = {"n1": (True, True, False), "n2": (False, True, False)}
+    for k, (px, py) in pts.items():
+        s.nodes[k] = (a * px, a * py, sups.get(k, (False, False, False)))
+    for i, (p, q) in enumerate(edges):
+        if rng.random() < 0.3:
+            p, q = q, p
+        s.bars.append({"id": "b%d" % (i + 1), "n1": p, "l1": LINKS["pin"], "n2": q, "l2": LINKS["pin"],
+                       "mat": "steel", "sec": "ipe"})
+    free = [k for k in pts if k not in sups]
+    for k in free:
+        # a nodal load enters through one of the bars that end at the node
+        for b in s.bars:
+            if k in (b["n1"], b["n2"]):
+                t = Fr(0) if b["n1"] == k else Fr(1)
+                s.loads.append({"kind": "c", "term": rng.choice(["fx", "fy"]), "local": False, "bar": b["id"], "t": t,
+                                "v": Fr(rng.choice([-1, 1]) * rng.choice([100, 250, 1000]))})
+                break
+    s.meta = {"kind": "truss/%d" % len(edges)}
+    return s
+
+
+def gen_solvable(rng):
+    r = rng.random()
+    if r < 0.3:
+        return gen_beam(rng)
+    if r < 0.55:
+        return gen_chain(rng)
+    if r < 0.8:
+        return gen_portal(rng)
+    if r < 0.9:
+        return gen_truss(rng)
+    s = gen_frame(rng, max_cells=1, allow_mz_dist=False)
+    for b in s.bars:  # rigid or pinned ends only
+        for k in ("l1", "l2"):
+            if b[k] not in (LINKS["rigid"], LINKS["pin"]):
+                b[k] = LINKS["rigid"]
+    s.loads = [l for l in s.loads if not (l["kind"] == "d" and l["term"] == "mz")]
+    return s
+
+
+# ---------------------------------------------------------------- unit systems
+
+def rnd(x, digits=17):
+    """x rounded to a finite decimal with `digits` significant digits (exact when already finite)"""
+    x = Fr(x)
+    try:
+        dec(x)
+        return x
+    except ValueError:
+        pass
+    if x == 0:
+        return x
+    from math import floor, log10
+    e = floor(log10(abs(float(x))))
+    q = Fr(10) ** (digits - 1 - e)
+    return Fr(round(x * q)) / q
+
+
+def convert_units(s, lam, phi):
+    """The same structure with lengths multiplied by lam and forces by phi (all derived
+    quantities converted consistently)."""
+    lam, phi = Fr(lam), Fr(phi)
+    t = s.copy()
+    r = rnd
+    t.nodes = {k: (r(x * lam), r(y * lam), c) for k, (x, y, c) in s.nodes.items()}
+    st = phi / lam ** 2
+    t.mats = {k: (r(v[0] * phi / lam ** 3), r(v[1] * st), r(v[2] * st), v[3], r(v[4] * st), r(v[5] * st)) for k, v in s.mats.items()}
+    t.secs = {k: (r(v[0] * lam ** 2), r(v[1] * lam ** 4), r(v[2] * lam ** 4), r(v[3] * lam ** 3), r(v[4] * lam ** 3)) for k, v in s.secs.items()}
+    for l in t.loads:
+        if l["kind"] == "c":
+            l["v"] = r(l["v"] * (phi * lam if l["term"] == "mz" else phi))
+        else:
+            f = phi if l["term"] == "mz" else phi / lam
+            l["v0"], l["v1"] = r(l["v0"] * f), r(l["v1"] * f)
+    t.meta = dict(getattr(s, "meta", {}))
+    return t
